@@ -219,7 +219,7 @@ class C32(Check):
         return cases(tier)
 
     def examples(self, tier):
-        return (2 if tier == "quick" else 60) + 1
+        return (1 if tier == "quick" else 60) + 1
 
     def budget_s(self, tier):
         # safety net only; VERIF_BUDGET_SCALE stretches it on a busy machine (every case spawns processes)
